@@ -1,18 +1,26 @@
 #!/bin/sh
-# usage: tools/reseed_all.sh : apply every saved seeded defect in turn to a scratch worktree of /repo's HEAD (never to /repo
-# itself), run the quick check of its property against that worktree (VERIF_REPO), revert.  Writes tools/reseed_last.log.
-W=/tmp/wt_reseed
+# usage: tools/reseed_all.sh [shard nshards] : apply every saved seeded defect in turn to a scratch worktree of /repo's HEAD (never
+# to /repo itself), run the quick check of its property against that worktree (VERIF_REPO), revert.  With shard/nshards only every
+# nshards-th seed is run (several shards can run side by side, each on its own worktree); the last step merges out/reseed_*.log
+# into tools/reseed_last.log when all shards are done:  tools/reseed_all.sh merge
 cd /verif
+if [ "$1" = merge ]; then cat out/reseed_shard*.log | sort > tools/reseed_last.log; wc -l tools/reseed_last.log; exit 0; fi
+S=${1:-0}; N=${2:-1}
+W=/tmp/wt_reseed_$S
 git -C /repo worktree remove --force $W 2>/dev/null
 git -C /repo worktree add --detach -q $W HEAD || exit 2
-: > out/reseed.log
+LOG=out/reseed_shard$S.log
+: > $LOG
+i=0
+mkdir -p out/reseed_evidence_$S
 for d in seeded/*/; do
+  i=$((i+1)); [ $((i % N)) -eq $S ] || continue
   id=$(basename $d)
   prop=$(python3 -c "import json; print(json.load(open('$d/meta.json'))['property'])")
-  (cd $W && git apply /verif/$d/patch.diff) || { echo "$id $prop PATCH-DOES-NOT-APPLY" >> out/reseed.log; continue; }
-  mkdir -p out/reseed_evidence; VERIF_REPO=$W VERIF_EVIDENCE_DIR=/verif/out/reseed_evidence ./check $prop > out/reseed_run.log 2>&1; rc=$?
-  echo "$id $prop rc=$rc violations=$(grep -c '^VIOLATION' out/reseed_run.log) $(grep '^VIOLATION' -A1 out/reseed_run.log | grep clause= | sed 's/^ *//' | cut -c1-70 | sort | uniq -c | sort -rn | head -1)" >> out/reseed.log
+  (cd $W && git apply /verif/$d/patch.diff) || { echo "$id $prop PATCH-DOES-NOT-APPLY" >> $LOG; continue; }
+  VERIF_REPO=$W VERIF_EVIDENCE_DIR=/verif/out/reseed_evidence_$S ./check $prop > out/reseed_run_$S.log 2>&1; rc=$?
+  echo "$id $prop rc=$rc violations=$(grep -c '^VIOLATION' out/reseed_run_$S.log) $(grep '^VIOLATION' -A1 out/reseed_run_$S.log | grep clause= | sed 's/^ *//' | cut -c1-70 | sort | uniq -c | sort -rn | head -1)" >> $LOG
   git -C $W checkout -q -- . ; git -C $W clean -fdq
 done
 git -C /repo worktree remove --force $W
-cp out/reseed.log tools/reseed_last.log
+[ "$N" = 1 ] && cp $LOG tools/reseed_last.log
